@@ -26,7 +26,7 @@ Proof. unfold is_word. lia. Qed.
 (* small encoders *)
 Lemma reg_val_ok r r' : reg_val r = Ok r' -> 0 <= r < 8 /\ r' = r /\ sem_reg r = Some r.
 Proof.
-  unfold reg_val, sem_reg. change (2 ^ 3) with 8.
+  unfold reg_val, sem_reg. change (- 2 ^ 3) with (-8). change (2 ^ 3) with 8.
   destruct (r <? 0) eqn:E1; try discriminate.
   destruct (r <=? -8) eqn:E2; try discriminate.
   destruct (r >=? 8) eqn:E3; try discriminate.
@@ -38,7 +38,7 @@ Qed.
 
 Lemma reg_val_complete r : 0 <= r < 8 -> reg_val r = Ok r.
 Proof.
-  intros H. unfold reg_val. change (2 ^ 3) with 8.
+  intros H. unfold reg_val. change (- 2 ^ 3) with (-8). change (2 ^ 3) with 8.
   replace (r <? 0) with false by lia. replace (r <=? -8) with false by lia.
   replace (r >=? 8) with false by lia. rewrite Z.mod_small by lia. reflexivity.
 Qed.
@@ -51,7 +51,7 @@ Proof. unfold sem_reg. destruct ((0 <=? r) && (r <? 8)) eqn:E; try discriminate.
 
 Lemma int16_ok x w : int16 x = Ok w -> val16 x = Some w /\ is_word w = true /\ w = x mod 65536.
 Proof.
-  unfold int16, val16. change (2 ^ 16) with 65536.
+  unfold int16, val16. change (- 2 ^ 16) with (-65536). change (2 ^ 16) with 65536.
   destruct (x <=? -65536) eqn:E1; try discriminate.
   destruct (x >=? 65536) eqn:E2; try discriminate.
   intros H. inv H.
@@ -61,7 +61,7 @@ Qed.
 
 Lemma int16_complete x w : val16 x = Some w -> int16 x = Ok w.
 Proof.
-  unfold int16, val16. change (2 ^ 16) with 65536.
+  unfold int16, val16. change (- 2 ^ 16) with (-65536). change (2 ^ 16) with 65536.
   destruct ((-65536 <? x) && (x <? 65536)) eqn:E; try discriminate.
   intros H; inv H.
   replace (x <=? -65536) with false by lia. replace (x >=? 65536) with false by lia. reflexivity.
@@ -77,6 +77,8 @@ Proof.
 Qed.
 
 (* ------------------------------------------------------------------------------------------ *)
+Local Opaque Z.lor.
+
 (* the Spec's operand decoder on mode*8 + register *)
 Lemma decode_rm_split fp m r ws addr k : 0 <= r < 8 -> 0 <= m < 8 ->
   decode_rm fp (m * 8 + r) ws addr k =
@@ -116,88 +118,291 @@ Lemma enc_regmode_sound o addr k v ext :
      forall fp rest, (fp = true -> is_oreg o = false) ->
        decode_rm fp v (ext ++ rest) addr k = Some (s, List.length ext)).
 Proof.
-  intros H. destruct o; simpl in H.
+  intros H. destruct o; unfold enc_regmode in H.
   - (* OReg *)
     bind_inv H. inv H. apply reg_val_ok in Ha. destruct Ha as [Hr [-> Hs]].
     split; [lia|]. split; [constructor|]. intros _.
-    exists (SReg r). simpl. rewrite Hs. repeat split.
+    exists (SReg r). split; [unfold sem_rm; rewrite Hs; reflexivity|]. split; [reflexivity|].
     intros fp rest Hfp. destruct fp; [specialize (Hfp eq_refl); discriminate|].
     change r with (0 * 8 + r) at 1. rewrite decode_rm_split by lia. reflexivity.
   - (* ORegDef *)
     bind_inv H. inv H. apply reg_val_ok in Ha. destruct Ha as [Hr [-> Hs]].
-    rewrite lor_small by (simpl; auto).
+    rewrite lor_small by (simpl; auto 10).
     split; [lia|]. split; [constructor|]. intros _.
-    exists (SDef r). simpl. rewrite Hs. repeat split.
+    exists (SDef r). split; [unfold sem_rm; rewrite Hs; reflexivity|]. split; [reflexivity|].
     intros fp rest _. change (8 + r) with (1 * 8 + r). rewrite decode_rm_split by lia. reflexivity.
   - (* OAutoInc *)
     bind_inv H. inv H. apply reg_val_ok in Ha. destruct Ha as [Hr [-> Hs]].
-    rewrite lor_small by (simpl; auto).
-    split; [lia|]. split; [constructor|]. simpl. intros Hpc.
-    exists (SInc r). rewrite Hs. simpl. rewrite Hpc. repeat split.
+    rewrite lor_small by (simpl; auto 10).
+    split; [lia|]. split; [constructor|]. unfold explicit_pc_autoinc. intros Hpc.
+    exists (SInc r). split; [unfold sem_rm; rewrite Hs; unfold obind; rewrite Hpc; reflexivity|]. split; [reflexivity|].
     intros fp rest _. change (16 + r) with (2 * 8 + r). rewrite decode_rm_split by lia.
-    simpl. rewrite Hpc. reflexivity.
+    rewrite Hpc. reflexivity.
   - (* OAutoIncDef *)
     bind_inv H. inv H. apply reg_val_ok in Ha. destruct Ha as [Hr [-> Hs]].
-    rewrite lor_small by (simpl; auto).
-    split; [lia|]. split; [constructor|]. simpl. intros Hpc.
-    exists (SIncDef r). rewrite Hs. simpl. rewrite Hpc. repeat split.
+    rewrite lor_small by (simpl; auto 10).
+    split; [lia|]. split; [constructor|]. unfold explicit_pc_autoinc. intros Hpc.
+    exists (SIncDef r). split; [unfold sem_rm; rewrite Hs; unfold obind; rewrite Hpc; reflexivity|]. split; [reflexivity|].
     intros fp rest _. change (24 + r) with (3 * 8 + r). rewrite decode_rm_split by lia.
-    simpl. rewrite Hpc. reflexivity.
+    rewrite Hpc. reflexivity.
   - (* OAutoDec *)
     bind_inv H. inv H. apply reg_val_ok in Ha. destruct Ha as [Hr [-> Hs]].
-    rewrite lor_small by (simpl; auto).
+    rewrite lor_small by (simpl; auto 10).
     split; [lia|]. split; [constructor|]. intros _.
-    exists (SDec r). simpl. rewrite Hs. repeat split.
+    exists (SDec r). split; [unfold sem_rm; rewrite Hs; reflexivity|]. split; [reflexivity|].
     intros fp rest _. change (32 + r) with (4 * 8 + r). rewrite decode_rm_split by lia. reflexivity.
   - (* OAutoDecDef *)
     bind_inv H. inv H. apply reg_val_ok in Ha. destruct Ha as [Hr [-> Hs]].
-    rewrite lor_small by (simpl; auto).
+    rewrite lor_small by (simpl; auto 10).
     split; [lia|]. split; [constructor|]. intros _.
-    exists (SDecDef r). simpl. rewrite Hs. repeat split.
+    exists (SDecDef r). split; [unfold sem_rm; rewrite Hs; reflexivity|]. split; [reflexivity|].
     intros fp rest _. change (40 + r) with (5 * 8 + r). rewrite decode_rm_split by lia. reflexivity.
   - (* OIndex *)
     bind_inv H. bind_inv H. inv H. apply reg_val_ok in Ha. destruct Ha as [Hr [-> Hs]].
     apply int16_ok in Ha0. destruct Ha0 as [Hv [Hw _]].
     rewrite lor_small by (simpl; auto 10).
     split; [lia|]. split; [repeat constructor; exact Hw|]. intros _.
-    simpl. rewrite Hs, Hv. simpl.
-    eexists. split; [reflexivity|]. split; [destruct (r =? 7); reflexivity|].
+    eexists. split; [unfold sem_rm; rewrite Hs, Hv; unfold obind; reflexivity|].
+    split; [destruct (r =? 7); reflexivity|].
     intros fp rest _. change (48 + r) with (6 * 8 + r). rewrite decode_rm_split by lia.
-    simpl. destruct (r =? 7); rewrite Hw; reflexivity.
+    cbn [app]. rewrite !take_word_cons by exact Hw.
+    destruct (r =? 7); reflexivity.
   - (* OIndexDef *)
     bind_inv H. bind_inv H. inv H. apply reg_val_ok in Ha. destruct Ha as [Hr [-> Hs]].
     apply int16_ok in Ha0. destruct Ha0 as [Hv [Hw _]].
     rewrite lor_small by (simpl; auto 10).
     split; [lia|]. split; [repeat constructor; exact Hw|]. intros _.
-    simpl. rewrite Hs, Hv. simpl.
-    eexists. split; [reflexivity|]. split; [destruct (r =? 7); reflexivity|].
+    eexists. split; [unfold sem_rm; rewrite Hs, Hv; unfold obind; reflexivity|].
+    split; [destruct (r =? 7); reflexivity|].
     intros fp rest _. change (56 + r) with (7 * 8 + r). rewrite decode_rm_split by lia.
-    simpl. destruct (r =? 7); rewrite Hw; reflexivity.
+    cbn [app]. rewrite !take_word_cons by exact Hw.
+    destruct (r =? 7); reflexivity.
   - (* OImm *)
     bind_inv H. inv H. apply int16_ok in Ha. destruct Ha as [Hv [Hw _]].
     split; [lia|]. split; [repeat constructor; exact Hw|]. intros _.
-    simpl. rewrite Hv. simpl. eexists. split; [reflexivity|]. split; [reflexivity|].
+    eexists. split; [unfold sem_rm; rewrite Hv; reflexivity|]. split; [reflexivity|].
     intros fp rest _. change 23 with (2 * 8 + 7). rewrite decode_rm_split by lia.
-    simpl. rewrite Hw. reflexivity.
+    cbn [app]. rewrite !take_word_cons by exact Hw. reflexivity.
   - (* OAbs *)
     bind_inv H. inv H. apply int16_ok in Ha. destruct Ha as [Hv [Hw _]].
     split; [lia|]. split; [repeat constructor; exact Hw|]. intros _.
-    simpl. rewrite Hv. simpl. eexists. split; [reflexivity|]. split; [reflexivity|].
+    eexists. split; [unfold sem_rm; rewrite Hv; reflexivity|]. split; [reflexivity|].
     intros fp rest _. change 31 with (3 * 8 + 7). rewrite decode_rm_split by lia.
-    simpl. rewrite Hw. reflexivity.
+    cbn [app]. rewrite !take_word_cons by exact Hw. reflexivity.
   - (* ORel *)
     inv H.
     assert (Hw : is_word (enc_rel t (addr + 2 + 2 * k)) = true) by (unfold enc_rel; change (2 ^ 16) with 65536; apply is_word_mod).
     split; [lia|]. split; [repeat constructor; exact Hw|]. intros _.
-    simpl. eexists. split; [reflexivity|]. split; [reflexivity|].
+    eexists. split; [reflexivity|]. split; [reflexivity|].
     intros fp rest _. change 55 with (6 * 8 + 7). rewrite decode_rm_split by lia.
-    simpl. rewrite Hw. rewrite rel_roundtrip. reflexivity.
+    cbn [app].
+    rewrite !take_word_cons by exact Hw. rewrite rel_roundtrip. reflexivity.
   - (* ORelDef *)
     inv H.
     assert (Hw : is_word (enc_rel t (addr + 2 + 2 * k)) = true) by (unfold enc_rel; change (2 ^ 16) with 65536; apply is_word_mod).
     split; [lia|]. split; [repeat constructor; exact Hw|]. intros _.
-    simpl. eexists. split; [reflexivity|]. split; [reflexivity|].
+    eexists. split; [reflexivity|]. split; [reflexivity|].
     intros fp rest _. change 63 with (7 * 8 + 7). rewrite decode_rm_split by lia.
-    simpl. rewrite Hw. rewrite rel_roundtrip. reflexivity.
+    cbn [app].
+    rewrite !take_word_cons by exact Hw. rewrite rel_roundtrip. reflexivity.
   - discriminate.
+Qed.
+
+(* ------------------------------------------------------------------------------------------ *)
+(* branch / sob offsets (C04) *)
+Lemma even_mod2 d : Z.even d = (d mod 2 =? 0).
+Proof.
+  destruct (Z.even d) eqn:E.
+  - apply Z.even_spec in E. destruct E as [m ->]. symmetry. apply Z.eqb_eq. lia.
+  - assert (O : Z.odd d = true) by (rewrite <- Z.negb_even, E; reflexivity).
+    apply Z.odd_spec in O. destruct O as [m ->]. symmetry. apply Z.eqb_neq. lia.
+Qed.
+
+Lemma enc_offset_branch t rel :
+  match enc_offset false 8 t rel with
+  | Ok f => Z.even (t - rel) = true /\ -256 <= t - rel <= 254 /\ 2 * f = t - rel /\ -128 <= f <= 127
+  | Err _ => ~ (Z.even (t - rel) = true /\ -256 <= t - rel <= 254)
+  | _ => False
+  end.
+Proof.
+  unfold enc_offset. cbn [andb]. rewrite even_mod2.
+  change (- 2 ^ (8 + 0) + 2 * 0) with (-256). change (2 ^ 8 - 2) with 254.
+  destruct ((-256 <=? t - rel) && (t - rel <=? 254)) eqn:E1;
+  destruct ((t - rel) mod 2 =? 1) eqn:E2; cbn [app]; try lia.
+Qed.
+
+Lemma enc_offset_sob t rel :
+  match enc_offset true 6 t rel with
+  | Ok f => Z.even (t - rel) = true /\ -126 <= t - rel <= 0 /\ 2 * f = rel - t /\ 0 <= f <= 63
+  | Err _ => ~ (Z.even (t - rel) = true /\ -126 <= t - rel <= 0)
+  | _ => False
+  end.
+Proof.
+  unfold enc_offset. cbn [andb]. rewrite even_mod2.
+  change (- 2 ^ (6 + 1) + 2 * 1) with (-126).
+  destruct (t - rel >? 0) eqn:E0.
+  - destruct ((t - rel) mod 2 =? 1) eqn:E2; cbn [app]; lia.
+  - destruct ((-126 <=? t - rel) && (t - rel <=? 0)) eqn:E1;
+    destruct ((t - rel) mod 2 =? 1) eqn:E2; cbn [app]; try lia.
+Qed.
+
+Lemma sext8_mod f : -128 <= f <= 127 -> sext8 (f mod 256) = f.
+Proof. intros H. unfold sext8. destruct (f mod 256 <? 128) eqn:E; lia. Qed.
+
+Lemma branch_target_hits a f t : -128 <= f <= 127 -> 2 * f = t - (a + 2) ->
+  branch_target a (f mod 256) = wrap16 t.
+Proof. intros Hf H. unfold branch_target. rewrite sext8_mod by exact Hf. f_equal. lia. Qed.
+
+Lemma sob_target_hits a f t : 2 * f = (a + 2) - t -> sob_target a f = wrap16 t.
+Proof. intros H. unfold sob_target. f_equal. lia. Qed.
+
+(* inline numbers *)
+Lemma enc_imm_spec u b x : 0 <= b ->
+  match enc_imm u b x with
+  | Ok f => (if u then 0 <= x else - 2 ^ b < x) /\ x < 2 ^ b /\ f = x mod 2 ^ b /\ 0 <= f < 2 ^ b
+  | Err _ => ~ ((if u then 0 <= x else - 2 ^ b < x) /\ x < 2 ^ b)
+  | _ => False
+  end.
+Proof.
+  intros Hb. assert (P : 0 < 2 ^ b) by (apply Z.pow_pos_nonneg; lia).
+  unfold enc_imm. pose proof (Z.mod_pos_bound x (2 ^ b) P) as M.
+  generalize dependent (2 ^ b). intros p P M.
+  destruct u; cbn [andb].
+  - destruct (x <? 0) eqn:E0; [lia|].
+    destruct ((0 <=? x) && (x <=? p - 1)) eqn:E1; lia.
+  - destruct ((- p + 1 <=? x) && (x <=? p - 1)) eqn:E1; lia.
+Qed.
+
+(* ------------------------------------------------------------------------------------------ *)
+(* stubs *)
+Ltac pick := repeat (first [solve [left; repeat split; reflexivity] | right]); try solve [repeat split; reflexivity].
+
+Lemma shape_cases st c : shape st = Some c ->
+  (sk st = SkRegister /\ c = CReg) \/ (sk st = SkRegMode /\ c = CRM) \/ (sk st = SkFpRM /\ c = CFpRM) \/
+  (sk st = SkFpAcc /\ bitness st = 2 /\ c = CAcc) \/
+  (sk st = SkOffset /\ bitness st = 8 /\ unsigned_ st = false /\ c = CBr) \/
+  (sk st = SkOffset /\ bitness st = 6 /\ unsigned_ st = true /\ c = CSob) \/
+  (sk st = SkImmediate /\ bitness st = 3 /\ unsigned_ st = true /\ c = CNum 3 false) \/
+  (sk st = SkImmediate /\ bitness st = 6 /\ unsigned_ st = true /\ c = CNum 6 false) \/
+  (sk st = SkImmediate /\ bitness st = 8 /\ unsigned_ st = false /\ c = CNum 8 true).
+Proof.
+  unfold shape, bitness. destruct (sk st); intros H.
+  - destruct (Nat.eqb _ 3) eqn:E; inv H. pick.
+  - destruct (Nat.eqb _ 6) eqn:E; inv H. pick.
+  - destruct (Nat.eqb _ 6) eqn:E; inv H. pick.
+  - destruct (Nat.eqb _ 2) eqn:E; inv H. apply Nat.eqb_eq in E. rewrite E. pick.
+  - destruct (Nat.eqb _ 8) eqn:E8; destruct (unsigned_ st) eqn:U; cbn [andb negb] in H.
+    + destruct (Nat.eqb _ 6) eqn:E6; inv H. apply Nat.eqb_eq in E6. rewrite E6. pick.
+    + inv H. apply Nat.eqb_eq in E8. rewrite E8. pick.
+    + destruct (Nat.eqb _ 6) eqn:E6; inv H. apply Nat.eqb_eq in E6. rewrite E6. pick.
+    + rewrite andb_false_r in H. discriminate.
+  - destruct (unsigned_ st) eqn:U; cbn [andb negb] in H; rewrite ?andb_true_r, ?andb_false_r in H.
+    + destruct (Nat.eqb _ 3) eqn:E3; [inv H; apply Nat.eqb_eq in E3; rewrite E3; pick|].
+      destruct (Nat.eqb _ 6) eqn:E6; [inv H; apply Nat.eqb_eq in E6; rewrite E6; pick|].
+      discriminate.
+    + destruct (Nat.eqb _ 8) eqn:E8; inv H. apply Nat.eqb_eq in E8. rewrite E8. pick.
+Qed.
+
+Lemma in_range_unfold c v : in_range c v <-> vlo c <= v < vlo c + Z.of_nat (vcount c).
+Proof. reflexivity. Qed.
+
+Lemma enc_stub_sound st c o addr k v ext :
+  shape st = Some c -> enc_stub st o (addr + 2 + 2 * k) = Ok (v, ext) ->
+  in_range c v /\ Forall wordp ext /\
+  (explicit_pc_autoinc o = false ->
+   exists s, sem_operand c o addr k = Some s /\ Z.of_nat (List.length ext) = ext_words s /\
+     forall rest, decode_field (fld c v) (ext ++ rest) addr k = Some (s, List.length ext)).
+Proof.
+  intros Hs H. apply shape_cases in Hs. unfold enc_stub in H.
+  destruct Hs as [[K ->]|[[K ->]|[[K ->]|[[K [B ->]]|[[K [B [U ->]]]|[[K [B [U ->]]]|[[K [B [U ->]]]|[[K [B [U ->]]]|[K [B [U ->]]]]]]]]]]];
+    rewrite K in H; try rewrite B in H; try rewrite U in H.
+  - (* register *)
+    destruct o; try discriminate. unfold enc_register in H. bind_inv H. inv H.
+    apply reg_val_ok in Ha. destruct Ha as [Hr [-> Hsr]].
+    split; [unfold in_range; cbn; lia|]. split; [constructor|]. intros _.
+    exists (SReg r). cbn [sem_operand]. rewrite Hsr. repeat split.
+  - (* register mode *)
+    apply enc_regmode_sound in H. destruct H as [Hv [Hw H]].
+    split; [unfold in_range; cbn; lia|]. split; [exact Hw|]. intros Hpc.
+    destruct (H Hpc) as [s [S1 [S2 S3]]]. exists s. cbn [sem_operand fld decode_field].
+    repeat split; auto. intros rest. apply S3. discriminate.
+  - (* FP register mode *)
+    unfold enc_fprm in H. destruct o;
+      try (apply enc_regmode_sound in H; destruct H as [Hv [Hw H]];
+           split; [unfold in_range; cbn; lia|]; split; [exact Hw|]; intros Hpc;
+           destruct (H Hpc) as [s [S1 [S2 S3]]]; exists s; cbn [sem_operand fld decode_field];
+           repeat split; auto; intros rest; apply S3; reflexivity).
+    + (* OReg *)
+      bind_inv H. apply reg_val_ok in Ha. destruct Ha as [Hr [-> Hsr]].
+      destruct (r <? 6) eqn:E; inv H.
+      split; [unfold in_range; cbn; lia|]. split; [constructor|]. intros _.
+      exists (SAcc v). cbn [sem_operand]. rewrite Hsr. unfold obind.
+      replace (v <=? 5) with true by lia. repeat split.
+      intros rest. cbn [fld decode_field]. change v with (0 * 8 + v) at 1. rewrite decode_rm_split by lia.
+      cbn [Z.eqb]. replace (v <=? 5) with true by lia. reflexivity.
+    + (* OAcc *)
+      destruct ((0 <=? n) && (n <=? 5)) eqn:E; inv H.
+      split; [unfold in_range; cbn; lia|]. split; [constructor|]. intros _.
+      exists (SAcc v). cbn [sem_operand]. rewrite E. repeat split.
+      intros rest. cbn [fld decode_field]. change v with (0 * 8 + v) at 1. rewrite decode_rm_split by lia.
+      cbn [Z.eqb]. replace (v <=? 5) with true by lia. reflexivity.
+  - (* FP accumulator *)
+    unfold enc_fpacc in H. rewrite B in H. change (2 ^ 2) with 4 in H.
+    destruct o; try discriminate.
+    destruct ((0 <=? n) && (n <=? 5)) eqn:E; try discriminate.
+    destruct (n >=? 4) eqn:E4; inv H.
+    split; [unfold in_range; cbn; lia|]. split; [constructor|]. intros _.
+    exists (SAcc v). cbn [sem_operand]. replace ((0 <=? v) && (v <=? 3)) with true by lia. repeat split.
+  - (* branch *)
+    destruct o; try discriminate. bind_inv H. inv H.
+    pose proof (enc_offset_branch t (addr + 2 + 2 * k)) as P. rewrite Ha in P.
+    destruct P as [P1 [P2 [P3 P4]]].
+    split; [unfold in_range; cbn; lia|]. split; [constructor|]. intros _.
+    exists (STarget (wrap16 t)). cbn [sem_operand].
+    replace (t - (addr + 2 * k + 2)) with (t - (addr + 2 + 2 * k)) by lia. rewrite P1.
+    replace (-256 <=? t - (addr + 2 + 2 * k)) with true by lia.
+    replace (t - (addr + 2 + 2 * k) <=? 254) with true by lia.
+    cbn [andb]. repeat split.
+    intros rest. cbn [fld decode_field]. rewrite (branch_target_hits _ _ t) by lia. reflexivity.
+  - (* sob *)
+    destruct o; try discriminate. bind_inv H. inv H.
+    pose proof (enc_offset_sob t (addr + 2 + 2 * k)) as P. rewrite Ha in P.
+    destruct P as [P1 [P2 [P3 P4]]].
+    split; [unfold in_range; cbn; lia|]. split; [constructor|]. intros _.
+    exists (STarget (wrap16 t)). cbn [sem_operand].
+    replace (t - (addr + 2 * k + 2)) with (t - (addr + 2 + 2 * k)) by lia. rewrite P1.
+    replace (-126 <=? t - (addr + 2 + 2 * k)) with true by lia.
+    replace (t - (addr + 2 + 2 * k) <=? 0) with true by lia.
+    cbn [andb]. repeat split.
+    intros rest. cbn [fld decode_field]. rewrite (sob_target_hits _ _ t) by lia. reflexivity.
+  - (* spl *)
+    assert (exists x, (o = ORel x \/ o = OImm x) /\ enc_imm true 3 x = Ok v /\ ext = []) as [x [Ho [Hx ->]]].
+    { destruct o; try discriminate; bind_inv H; inv H; eauto. }
+    pose proof (enc_imm_spec true 3 x ltac:(lia)) as P. rewrite Hx in P. change (2 ^ 3) with 8 in P.
+    destruct P as [P1 [P2 [P3 P4]]].
+    split; [unfold in_range; cbn; lia|]. split; [constructor|]. intros _.
+    exists (SNum v). split.
+    + destruct Ho as [-> | ->]; cbn [sem_operand]; change (2 ^ 3) with 8;
+        replace ((0 <=? x) && (x <? 8)) with true by lia; rewrite P3; reflexivity.
+    + repeat split.
+  - (* mark xfc *)
+    assert (exists x, (o = ORel x \/ o = OImm x) /\ enc_imm true 6 x = Ok v /\ ext = []) as [x [Ho [Hx ->]]].
+    { destruct o; try discriminate; bind_inv H; inv H; eauto. }
+    pose proof (enc_imm_spec true 6 x ltac:(lia)) as P. rewrite Hx in P. change (2 ^ 6) with 64 in P.
+    destruct P as [P1 [P2 [P3 P4]]].
+    split; [unfold in_range; cbn; lia|]. split; [constructor|]. intros _.
+    exists (SNum v). split.
+    + destruct Ho as [-> | ->]; cbn [sem_operand]; change (2 ^ 6) with 64;
+        replace ((0 <=? x) && (x <? 64)) with true by lia; rewrite P3; reflexivity.
+    + repeat split.
+  - (* emt trap *)
+    assert (exists x, (o = ORel x \/ o = OImm x) /\ enc_imm false 8 x = Ok v /\ ext = []) as [x [Ho [Hx ->]]].
+    { destruct o; try discriminate; bind_inv H; inv H; eauto. }
+    pose proof (enc_imm_spec false 8 x ltac:(lia)) as P. rewrite Hx in P. change (2 ^ 8) with 256 in P.
+    destruct P as [P1 [P2 [P3 P4]]].
+    split; [unfold in_range; cbn; lia|]. split; [constructor|]. intros _.
+    exists (SNum v). split.
+    + destruct Ho as [-> | ->]; cbn [sem_operand]; change (- 2 ^ 8) with (-256); change (2 ^ 8) with 256;
+        replace ((-256 <? x) && (x <? 256)) with true by lia; rewrite P3; reflexivity.
+    + repeat split.
 Qed.
